@@ -27,8 +27,8 @@ ASSUMPTIONS = ["no trade threshold (C12)", "epsilon snap of |position| < 1e-7 is
                "contract-count targets are reached to 8 ulp of max(1,|target|,|prior|) (DESIGN 4.2-b)"]
 REQUIRED = ["C03:same-request-other-account", "C03:chain-others-flat", "C03:target-weight-reached", "C03:target-contracts-reached", "C03:untargeted-closed",
             "C03:frictionless-weights", "C03:frictionless-nlv-unchanged", "C03:second-rebalance-trades-nothing",
-            "C03:frictionless-contracts-reached"]
-REQUIRED_CATS = ["requests-without-time", "same-request-two-accounts"]
+            "C03:frictionless-contracts-reached", "C03:restored-account"]
+REQUIRED_CATS = ["requests-without-time", "same-request-two-accounts", "account-restored-in-another-interpreter"]
 REQUIRED_HITS = ["Broker.rebalance", "Rebalancing.make_trades"]
 TECHNIQUE = "runtime monitoring: post-conditions at the Broker.rebalance boundary against an independent ledger"
 LEVEL_TEXT = ("Exploration. The real Broker.rebalance is driven from thousands of generated prior holdings and targets; after each "
@@ -173,7 +173,83 @@ def frictionless(ctx):
                   "targets": tgt, "targeted": [c.symbol if c is not chain else "chain" for c in keys], "prior_rebalances": nhist, "deposit": dep}
 
 
+def restored_account(blob, quotes, targets, measure, when):
+    """Runs in ANOTHER interpreter (another string-hash seed): the pickled account is restored, the market moves -
+    quotes addressed to contract objects constructed HERE - and a rebalance to `targets` (again on fresh contract
+    objects) is executed.  Returns what the account then says, by symbol."""
+    import pickle
+    b = pickle.loads(blob)
+    mk = {"ETF": ETF, "ES": lambda s_: ES(2000 + int(s_[-2:]), {"H": 3, "M": 6, "U": 9, "Z": 12}[s_[-3]])}
+    objs = {sym: mk[kind](sym) for sym, kind in quotes["kinds"].items()}
+    AbstractContract.now = when
+    for sym, (bid, ask) in quotes["prices"].items():
+        b.exchange.process_EventNBBO(EventNBBO(when, objs[sym], bid, ask))
+    n0 = b.net_liquidation_value()
+    keys = [objs[sym] for sym in targets]
+    r = Rebalancing(keys, [targets[sym] for sym in targets], measure=measure, time=when)
+    b.rebalance(r)
+    h = {}
+    for c, q in b.holdings_quantity.items():
+        h.setdefault(c.symbol, []).append(float(q))
+    return {"nlv_before": float(n0), "nlv_after": float(b.net_liquidation_value()), "holdings": h,
+            "weights": {c.symbol: float(w) for c, w in b.holdings_weights().items()},
+            "trades": [(t_.contract.symbol, float(t_.quantity)) for t_ in r.trades]}
+
+
+def restored_scenario(ctx):
+    """An account saved with pickle and restored in another interpreter session keeps working: contracts are what
+    their symbols say, whichever object (from the pickle, or constructed in the new session) names them."""
+    import pickle
+    from vf import alone
+    rng = ctx.rng
+    t = datetime(2019, 1, 1)
+    fees = BrokerFees()
+    ex = gen.new_exchange(t, fees)
+    cs = [ETF("A"), ETF("B"), ES(2019, 6)][: rng.randint(2, 3)]
+    mid = {c: rng.choice([20.0, 100.0, 2500.0]) for c in cs}
+    for c in cs:
+        ex.process_EventNBBO(EventNBBO(t, c, mid[c], mid[c]))
+    dep = rng.choice([1e5, 1e7])
+    b = Broker(ex, deposit=dep)
+    b.rebalance(Rebalancing(cs, [rng.uniform(0.1, 0.4) for _ in cs], time=t))
+    when = t + timedelta(days=1)
+    prices = {c.symbol: (mid[c] * f, mid[c] * f) for c in cs for f in [rng.uniform(0.8, 2.0)]}
+    meas = rng.choice(["weight", "nr-contracts"])
+    tgt = {c.symbol: (rng.uniform(-0.5, 0.8) if meas == "weight" else float(rng.randint(-20, 40))) for c in cs if rng.random() < 0.8}
+    res = alone.call("c03", "restored_account", pickle.dumps(b), {"kinds": {c.symbol: type(c).__name__ for c in cs}, "prices": prices},
+                     tgt, meas, when, env={"PYTHONHASHSEED": str(rng.randint(1, 10 ** 6))})
+    # reference: what the account is worth at the new quotes
+    want_nlv = b.holdings_quantity[Cash()] + sum(b.holdings_margins.values())
+    for c in cs:
+        q = b.holdings_quantity.get(c, 0.0)
+        if gen.is_margined(c):
+            want_nlv += q * c.multiplier * (prices[c.symbol][0] - mid[c])
+        else:
+            want_nlv += q * c.multiplier * prices[c.symbol][0]
+    ok = all(len(v) == 1 for v in res["holdings"].values())
+    ctx.check("C03:restored-account", ok, reason="one entry per contract", holdings=res["holdings"])
+    scale = dep + sum(abs(b.holdings_quantity.get(c, 0.0)) * c.multiplier * prices[c.symbol][0] for c in cs)
+    ctx.check("C03:restored-account", abs(res["nlv_before"] - want_nlv) <= 1e-9 * scale and abs(res["nlv_after"] - want_nlv) <= 1e-9 * scale,
+              reason="NLV before and after the frictionless rebalance = value at the new quotes",
+              before=res["nlv_before"], after=res["nlv_after"], want=want_nlv)
+    for c in cs:
+        x = tgt.get(c.symbol, 0.0)
+        got_q = sum(res["holdings"].get(c.symbol, [0.0]))
+        if meas == "weight":
+            want_q = x * want_nlv / (prices[c.symbol][0] * c.multiplier)
+            ctx.check("C03:restored-account", abs(got_q - want_q) <= 1e-9 * max(1.0, abs(want_q)) + 1.01e-7, reason="target weight reached",
+                      contract=c.symbol, got=got_q, want=want_q)
+        else:
+            ctx.check("C03:restored-account", abs(got_q - x) <= 1e-9 * max(1.0, abs(x)), reason="target contracts reached",
+                      contract=c.symbol, got=got_q, want=x)
+    ctx.cat("account-restored-in-another-interpreter")
+    ctx.nontrivial = True
+    ctx.sample = {"scenario": "account pickled, restored in another interpreter", "measure": meas, "targets": tgt}
+
+
 def case(ctx, i, tier):
+    if i % 750 == 13:
+        return restored_scenario(ctx)
     if i % 2 == 0:
         frictionless(ctx)
     else:
